@@ -10,3 +10,4 @@ import RaftWal.Props.C17
 #print axioms RaftWal.C17.bootstrap_entry_ignored
 #print axioms RaftWal.C17.sum_never_covers_rejected_batch
 #print axioms RaftWal.C17.inflight_blame_condition_from_source
+#print axioms RaftWal.C17.boundary_shift_undetected
